@@ -9,7 +9,13 @@ around the REAL clock (OpenSSL's verifier reads the real time) with day-scale ma
 
 Files are needed because Python's ``ssl`` can load a certificate chain only from a path
 and because mitmproxy takes its upstream trust anchors as a file / hashed directory.
-They live under /var/tmp/verif_pki_a/<utc-day>/ ; directories of earlier days are removed.
+They live under /verif/data/pki_a/<utc-day>/ (git-ignored, regenerated on demand); directories
+of earlier days are removed.
+
+Roots: "A" and "B" are private roots that a run may configure as trusted (file / hashed
+directory); "P" and "Q" are the simulated PUBLIC roots — the content of the sim-owned default
+bundle that ``certifi.where()`` is made to return during a run, and of no configured file or
+directory; "X" is an unrelated root that nobody trusts.
 
 The module also contains the *independent verdict*: ``verdict(spec, identity, trusted)``
 decides from the construction parameters alone whether a chain is acceptable for an
@@ -31,10 +37,11 @@ from cryptography.hazmat.primitives.asymmetric import ed25519
 from cryptography.x509.oid import ExtendedKeyUsageOID, NameOID
 
 REAL_TIME = time.time
-CACHE_ROOT = "/var/tmp/verif_pki_a"
+CACHE_ROOT = os.path.join(os.path.dirname(os.path.dirname(os.path.abspath(__file__))), "data", "pki_a")
 DAY = 86400
 
-ROOTS = ("A", "B", "X")          # A, B may be trusted; X never is
+ROOTS = ("A", "B", "P", "Q", "X")   # A, B: configurable private roots; P, Q: default bundle; X: nobody's
+PUBLIC_ROOTS = ("P", "Q")
 _mem: dict = {}
 
 
@@ -49,6 +56,13 @@ def _dir() -> str:
         _mem.clear()
         d = os.path.join(CACHE_ROOT, str(day))
         os.makedirs(d, exist_ok=True)
+        gi = os.path.join(CACHE_ROOT, ".gitignore")
+        if not os.path.exists(gi):
+            try:
+                with open(gi, "w") as f:
+                    f.write("*\n")
+            except OSError:
+                pass
         _mem["dir"], _mem["day"] = d, day
         try:
             for n in os.listdir(CACHE_ROOT):
@@ -145,6 +159,11 @@ def trust_file(labels) -> str:
     labels = tuple(sorted(labels))
     data = b"".join(_pem(root_cert(l)) for l in labels)
     return _write("trust-" + "".join(labels) + "-" + _h(data).hex()[:12] + ".pem", data)
+
+
+def public_bundle() -> str:
+    """The sim-owned "default CA bundle" (what certifi.where() returns during a run)."""
+    return trust_file(PUBLIC_ROOTS)
 
 
 def trust_dir(labels) -> str:
